@@ -152,7 +152,9 @@ class C16(Prop):
             'durations), jumps around TIME_JUMP_THRESHOLD, occasional backward clock, parameter changes through ports, '
             'unavailable ports, malformed parameters (zero/negative/fractional), reduced and real queue sizes; loop '
             'mode: the expression on a virtual port under the real polling loop in virtual time with scripted source '
-            'ports and clock jumps. Non-trivial = at least two different outcomes and a pause deadline reached; '
+            'ports, clock jumps, extra polling passes between ticks and second passes within a tick\'s instant that '
+            'see a changed source before the queued evaluation has run (what the confirming pass after any port write '
+            'is on a real hub; aligned with the tick at which a deadline has just run out). Non-trivial = at least two different outcomes and a pause deadline reached; '
             'distinct = distinct (expression shape, outcome series) pairs')
     CORRESPONDENCE = ('TimeFns.evalNode/stepStrict/effPaused/loopStep <-> parse().eval(EvalContext) + '
                       'Expression.is_asap_eval_paused + core.main.handle_value_changes')
@@ -296,6 +298,16 @@ class C16(Prop):
             {'mode': 'loop', 'expr': f('FMAVG', P('a'), L(3), L(100)),
              'script': [[0, {'a': 1.0, 'b': 0.0, 'c': 0.0}], [120, {'a': 2.0}], [330, {'a': 6.0}], [640, {'a': 7.0}]],
              'ticks': 20, 'jumps': [[8, 86405000]]},
+            # a second pass in the instant of the tick at which FREEZE's timer has just run out sees the input change
+            # before the queued (tick-driven) evaluation has run: the change must still be evaluated
+            {'mode': 'loop', 'expr': f('FREEZE', P('a'), L(1000)),
+             'script': [[0, {'a': 1.0, 'b': 0.0, 'c': 0.0}]], 'ticks': 70, 'jumps': [], 'inject': [[20, {'a': 5.0}]]},
+            {'mode': 'loop', 'expr': f('DELAY', P('a'), L(200)),
+             'script': [[0, {'a': 1.0, 'b': 0.0, 'c': 0.0}]], 'ticks': 30, 'jumps': [], 'inject': [[4, {'a': 5.0}]],
+             'extra': [2, 9]},
+            {'mode': 'loop', 'expr': f('ADD', f('SAMPLE', P('a'), L(100)), P('b')),
+             'script': [[0, {'a': 1.0, 'b': 0.0, 'c': 0.0}]], 'ticks': 20, 'jumps': [],
+             'inject': [[3, {'b': 2.0}], [7, {'a': 4.0}]], 'extra': [5]},
             # accumulator on the port itself
             {'mode': 'loop', 'expr': f('INTEG', P('a'), ['S'], L(100)),
              'script': [[0, {'a': 1.0, 'b': 0.0, 'c': 0.0}], [260, {'a': 3.0}]], 'ticks': 16, 'jumps': []},
@@ -521,7 +533,36 @@ class C16(Prop):
             thr = self.consts['thr']
             for _ in range(rng.choice([1, 1, 2])):
                 jumps.append([rng.randrange(2, nticks), rng.choice([130, 730, 5000, thr - 25, thr + 5000, 2 * thr])])
-        return {'mode': 'loop', 'expr': expr, 'script': script, 'ticks': nticks, 'jumps': sorted(jumps)}
+        case = {'mode': 'loop', 'expr': expr, 'script': script, 'ticks': nticks, 'jumps': sorted(jumps)}
+        deps = sorted({n[1] for n in walk(expr) if n[0] == 'P'})
+        r = rng.random()
+        if deps and r < 0.4 and not jumps:
+            # a second pass within a tick's instant that sees a changed source before the queued evaluation has run
+            # (on a real hub: the confirming pass after any port write)
+            port = rng.choice([p for p in deps if p != 'c'] or deps)
+            durs = [a[1] for a, role in zip(expr[2], ROLES.get(expr[1], '')) if role == 't' and a[0] == 'L'
+                    and isinstance(a[1], (int, float)) and 0 < a[1] <= 3000]
+            inject = []
+            if durs and expr[1] in PAUSING and rng.random() < 0.7:
+                # aligned with the first tick at which the deadline started by the first evaluation has run out
+                # (the first evaluation happens half a tick before tick 0); the port is quiet until then
+                kmin = int((durs[0] - self.tick_ms / 2) // self.tick_ms) + 1
+                k = max(0, kmin + rng.choice([-1, 0, 0, 0, 1]))
+                case['ticks'] = max(nticks, k + rng.choice([25, 40, 60]))
+                horizon = (k + 2) * self.tick_ms
+                case['script'] = [[t, {q: v for q, v in ch.items() if not (q == port and 0 < t <= horizon)}]
+                                  for t, ch in script]
+                case['script'] = [e for e in case['script'] if e[1] or e[0] == 0]
+                cur = script[0][1][port]
+                other = [v for v in pal[port] if v != cur] or [cur + 1.0 if not isinstance(cur, bool) else not cur]
+                inject.append([k, {port: rng.choice(other)}])
+            else:
+                for k in sorted(rng.sample(range(nticks), min(nticks, rng.choice([1, 2, 3])))):
+                    inject.append([k, {port: rng.choice(pal[port])}])
+            case['inject'] = inject
+        if rng.random() < 0.2 and not jumps:
+            case['extra'] = sorted(rng.sample(range(nticks), min(nticks, rng.choice([1, 2, 4]))))
+        return case
 
     def shrink_candidates(self, case):
         if case['mode'] == 'step':
@@ -537,14 +578,21 @@ class C16(Prop):
             for sub in self._subexprs(case['expr']):
                 yield dict(case, expr=sub)
         else:
+            last = max([k for k, _ in case.get('inject', [])] + list(case.get('extra', [])) + [0])
             if case['ticks'] > 6:
-                yield dict(case, ticks=case['ticks'] // 2)
-                yield dict(case, ticks=case['ticks'] - 3)
+                for n in (case['ticks'] // 2, case['ticks'] - 3):
+                    if n > last + 2:
+                        yield dict(case, ticks=n)
             sc = case['script']
             for i in range(1, len(sc)):
                 yield dict(case, script=sc[:i] + sc[i + 1:])
             if case['jumps']:
                 yield dict(case, jumps=case['jumps'][1:])
+            if case.get('extra'):
+                yield dict(case, extra=case['extra'][1:])
+            if len(case.get('inject', [])) > 1:
+                for i in range(len(case['inject'])):
+                    yield dict(case, inject=case['inject'][:i] + case['inject'][i + 1:])
             for sub in self._subexprs(case['expr']):
                 yield dict(case, expr=sub)
 
